@@ -61,6 +61,8 @@ def run(chk):
         fns_ub += [g for g in cfg.load_functions(chk.facts(unit, funcs=pat)) if g.file.endswith(unit.split("/")[-1])]
     ubsigned.run(chk, fns_ub)
 
+    from lib import logorder
+    logorder.run(chk)
     return chk.finish(
         level="other",
         explanation=("Guard and atomicity rules over the emit paths of /repo's current source: label ids are validated on the "
